@@ -46,6 +46,8 @@ func runLoss(c LossCase) ev.Verdict {
 
 	defer s.pipe.Release()
 
+	s.opts = exactOpt(&c.Case)
+
 	k := c.KAbs
 	if k < 0 {
 		k = length * c.KPermille / 1000
@@ -202,7 +204,7 @@ func callBounded(s *scenario, limit time.Duration) (string, error) {
 	done := make(chan outcome, 1)
 
 	go func() {
-		r, e := s.op(nil)
+		r, e := s.op(s.opts)
 		done <- outcome{r, e}
 	}()
 
@@ -298,7 +300,7 @@ func enumerateLossK(t *testing.T) {
 
 					c := LossCase{Kind: kind, After: 1}
 					c.Case = Case{Op: op, Cmd: "show inventory Q", Out: []string{"line one", "  line two  "}, NextCmd: "next =", TimeoutMode: "conn",
-						Plan: plan, ReadSize: 8192, ReadDelayNS: int64(500 * time.Microsecond), Version: "1.1", KAbs: k}
+						Plan: plan, ReadSize: 8192, ReadDelayNS: int64(500 * time.Microsecond), Version: "1.1", KAbs: k, Exact: k%2 == 1}
 
 					v := lossProp.Exec(t, c)
 					ran++
